@@ -111,6 +111,11 @@ fn plans(prop: &str, tier: &str) -> Vec<Plan> {
                         boxes.push((1, 1, 3));
                     }
                 }
+                if safe_only && has_m && (p == 0 || !quick) {
+                    // mutator x emission interplay on drawn values (a non-empty string AND a special replacement
+                    // character): two value deviations per step; protocol 0 carries the text encodings
+                    boxes.push((1, 1, 2));
+                }
                 for (d, m, b) in boxes {
                     v.push(mk(&label, &cfg, d, m, b));
                 }
@@ -135,6 +140,19 @@ fn plans(prop: &str, tier: &str) -> Vec<Plan> {
                     v.push(pl);
                 }
             }
+        }
+    }
+    if prop == "C17" {
+        // the simulation's in-place updates and tear-down act on shared cells: explore with the alias-relation key
+        for p in (0..=5u8).rev() {
+            let (d, m) = match (quick, p) {
+                (true, 5) | (true, 2) => (3, 1),
+                (true, _) => (2, 1),
+                (false, 0) => (4, 2),
+                (false, _) => (3, 2),
+            };
+            let o = Opts { max_depth: d, max_memo: m, dev_budget: 0, ref_in_key: false, alias_key: true, frame: FrameSel::Off, ..Opts::default() };
+            v.push(Plan { label: format!("P{p}/none/alias-relation/D{d}M{m}"), cfg: Cfg::new(p).flags(true, true), opts: o, scenario: vec![] });
         }
     }
     if matches!(prop, "C01" | "C02" | "C17") {
